@@ -113,7 +113,7 @@ func expectedLeafAddrs(data []byte) []string {
 
 // checkRoot runs the three traversal entry points on root and compares with the set of
 // chunk addresses written for it.
-func checkRoot(c *obs.Case, run *obs.Run, st *memstore.Store, root boson.Address, written map[string]bool, d caseDescr, wantLeaves [][]string) {
+func checkRoot(c *obs.Case, run *obs.Run, st traversal.PutGetter, root boson.Address, written map[string]bool, d caseDescr, wantLeaves [][]string) {
 	ctx := context.Background()
 	tr := traversal.New(st)
 	w := map[string]interface{}{"case": d, "root": root.String()}
